@@ -81,6 +81,13 @@ func (fg *FnGen) step(fr *Frame, b *ssa.BasicBlock, ins ssa.Instruction, st *Sta
 			fg.stackCells = append(fg.stackCells, stackCell{ref: ref, ty: elem, src: x})
 		}
 		fg.storeValue(st, ref, elem, ti.zeroOf(elem))
+		if arr, ok := elem.Underlying().(*types.Array); ok && ti.sortOf(elem) == SString {
+			// a byte array is modelled as a string of exactly its length (zero-filled; the content is left open): the
+			// empty string would make every later "len == N" fact contradictory and the path vacuously unreachable
+			z := fg.freshConst(fr.prefix+"zeros_"+x.Name(), SString)
+			fg.assume(Eq(StrLen(z), IntLit(arr.Len())))
+			fg.storeValue(st, ref, elem, z)
+		}
 		if fr.top && x.Comment != "" && !strings.ContainsAny(x.Comment, " .[]()") {
 			switch x.Comment {
 			case "slicelit", "varargs", "complit", "makeslice", "new", "arrayliteral", "rangelit":
@@ -263,8 +270,7 @@ func (fg *FnGen) step(fr *Frame, b *ssa.BasicBlock, ins ssa.Instruction, st *Sta
 		return st
 	case *ssa.Send:
 		fg.note("channel send abstracted (no-op) in " + fr.fn.Name())
-		fg.monitorSend(fr, x, st, reach)
-		return st
+		return fg.monitorSend(fr, x, st, reach)
 	case *ssa.Select:
 		fg.note("select abstracted (nondeterministic choice, arbitrary received values) in " + fr.fn.Name())
 		var tup []*Term
